@@ -3,20 +3,20 @@ import json, os
 props = [json.loads(l) for l in open('/verif/properties.jsonl')]
 EX_NOTE = ("Print Assumptions: closed under the global context for every theorem (no axioms). Trusted: Coq kernel; the "
            "hand-written Gallina model of the exchange (coq/theories/Exchange/Model.v) tied to /repo by the correspondence "
-           "harness; Decimal modelled as exact Q (cases whose observations differ between decimal precision 28 and 100 "
+           "harness; Decimal modelled as exact Q (cases whose observations differ between decimal precision 28 and 100 digits with directed rounding "
            "are only monitored); premises: initial balances >= 0, precisions configured, prices available for the "
            "conversions that margin and interest need.")
 CLAIMS = {
- "C01": ("Theorems C01_* prove, for every configuration and state, how AccountBalances.update, hold updates and each loan operation move the total of every symbol (create/cancel loan and reservations never move a total; a repayment moves it by the interest only). The whole-history ledger equation is C01_partial: it is validated, not proved, by replaying generated histories through the real exchange against the Coq model (every step compared through a checksum of the full public state) and by an independent ledger monitor.", EX_NOTE),
- "C02": ("Theorem C02_reachable_solvent proves by induction over operation lists of any length that in every reachable state of the exchange model 0 <= hold <= balance and borrowed >= 0 for every symbol (every mutation goes through AccountBalances.update, which checks the rules on the result); refused updates keep the state. 'borrowed = open loan principal' is validated by correspondence + monitor.", EX_NOTE),
+ "C01": ("Theorem C01_ledger_in_every_reachable_state proves, for every configuration and every sequence of bars, order requests, cancellations, loans, repayments and listings of any length, that in every reachable state of the exchange model balance - borrowed = initial + sum of the fills of all orders (base, quote) + their fees (<= 0) - interest paid, per symbol: every operation is a finite sequence of primitive transactions between well-formed states (C01_every_operation_is_primitive_transactions) and every primitive transaction keeps the ledger. Further theorems give the effect of each account update and loan operation on every total. The model is tied to the code by replaying generated histories through the real exchange (every step compared through a checksum of the full public state) and by an independent ledger monitor.", EX_NOTE),
+ "C02": ("Theorems C02_* prove by induction over operation lists of any length that in every reachable state of the exchange model 0 <= hold <= balance, borrowed >= 0 (hence available >= 0) and borrowed = summed principal of the open loans, for every symbol (every mutation goes through AccountBalances.update, which checks the rules on the result; loans are created, repaid and cancelled together with their balance updates); refused updates keep the state.", EX_NOTE),
  "C04": ("Theorems C04_* prove per (order, bar), for every liquidity state, amount and precision: limit/stop-limit fills are never worse than the limit (up to half a quote unit) and only in bars reaching it, stops never trade before a bar reaching the stop, market/stop fills lie in the bar's range and are never better than open/stop, and truncating a partial fill keeps its price. Completeness (filled by the next/first reaching bar) is checked by the monitor on ample-funds histories.", EX_NOTE),
- "C05": ("Theorems C05_* prove: cancelling a closed/unknown order fails and changes nothing, market and stop orders fill the whole pending amount or nothing, a fill closes the order exactly when the filled amount reaches the ordered amount, closed orders are skipped by bar processing, the open-order listing is the filter of the index. Monotonicity/finality over histories, listings across re-indexing (histories of 110-170 bars) and the event sequence are validated by correspondence + monitor (C05_partial).", EX_NOTE),
- "C06": ("Theorems C06_* prove: hold <= balance in every reachable state; a hold request is accepted iff every resulting hold is covered by its balance (exact boundary) and a rejected request changes nothing; reserving never moves a total; closing an order releases exactly its remaining holds. 'on hold = sum of open orders' reservations' over histories is validated by correspondence + an independent reservation-tracking monitor (C06_partial).", EX_NOTE),
- "C07": ("Theorems C07_* prove that every rejection that happens before anything is mutated (loan creation, repayment, loan cancellation, cancellation of unknown/closed orders, order requests without auto-borrow) leaves the complete model state identical. Rejected auto-borrow requests (rollback) are C07_partial: validated by correspondence + a before/after snapshot monitor.", EX_NOTE),
- "C08": ("Theorems C08_* prove that fill amounts and fees are on the pair's precision grid (truncate / round / round-up), that taking liquidity keeps 0 <= used <= total and fails instead of exceeding what is left, and that market orders need the whole amount to fit. Per-bar sums and balance grids over histories are validated by correspondence + monitor.", EX_NOTE),
+ "C05": ("Theorems C05_* prove: cancelling a closed/unknown order fails and changes nothing, market and stop orders fill the whole pending amount or nothing, a fill closes the order exactly when the filled amount reaches the ordered amount, closed orders are skipped by bar processing, the open-order listing is the filter of the index; and over whole histories of any length: 0 <= filled <= amount and id = position for every order in every reachable state, a closed order never changes again, a fill is never lost between the account update and the order record. Listings across re-indexing (histories of 110-170 bars) and the event sequence are validated by correspondence + monitor (C05_partial).", EX_NOTE),
+ "C06": ("Theorems C06_* prove: hold <= balance and hold = sum of the reservations recorded for orders, per symbol, in every reachable state; a hold request is accepted iff every resulting hold is covered by its balance (exact boundary) and a rejected request changes nothing; reserving never moves a total; closing an order releases exactly its remaining holds. That no reservation outlives its order when closing aborts is validated by correspondence + an independent reservation-tracking monitor (C06_partial).", EX_NOTE),
+ "C07": ("Theorems C07_* prove that every rejection that happens before anything is mutated (loan creation, repayment, loan cancellation, cancellation of unknown/closed orders, order requests without auto-borrow) leaves the complete model state identical, and that in every reachable state a rejected order request WITH auto-borrow restores balances, holds, borrowed amounts, orders, reservations and the set of open loans exactly (the roll-back cannot itself fail; once the borrowing succeeded the reservation cannot be refused). A cancellation of an open order failing after the up-front pricing of the loans succeeded is C07_partial: correspondence + a before/after snapshot monitor.", EX_NOTE),
+ "C08": ("Theorems C08_* prove that fill amounts and fees are on the pair's precision grid (truncate / round / round-up), that taking liquidity keeps 0 <= used <= total and fails instead of exceeding what is left, that market orders need the whole amount to fit, and, in every reachable state, that what one bar fills summed over all orders lies between 0 and the share of the bar's volume granted by the liquidity model (C08_bar_fills_within_liquidity). Balance grids over histories are validated by correspondence + monitor.", EX_NOTE),
  "C09": ("Theorem C09_fees_total proves by induction over ANY list of partial fills (any count and sizes) that the total fee charged equals the fee due on the cumulative traded quote amount (percentage, at least the minimum) rounded up to quote precision once; per-fill charges are never positive and lie on the grid; NoFee charges nothing.", EX_NOTE),
  "C10": ("Theorems C10_* prove that every granted loan (create_loan is the only borrowing path, also for auto-borrow orders) passed the margin gate evaluated on the post-loan account: no margin in use or equity/(used margin + interest) >= 100%, i.e. equity >= requirement; without a lending strategy every request fails and changes nothing.", EX_NOTE),
- "C11": ("Theorems C11_* prove: interest >= configured minimum and >= 0, the same-symbol formula (percentage x principal x elapsed/period), monotonicity in time, truncation to the interest symbol's grid, a repayment moves totals by the interest only, closed/unknown loans cannot be repaid, auto-repay candidates are sorted descending (stable permutation). The float ratio of the code is modelled by the exact ratio (compared on dyadic ratios only); 'closed only by' and 'as far as funds allow' are monitored.", EX_NOTE),
+ "C11": ("Theorems C11_* prove: interest >= configured minimum and >= 0, the same-symbol formula (percentage x principal x elapsed/period), monotonicity in time, truncation to the interest symbol's grid, a repayment moves totals by the interest only, closed/unknown loans cannot be repaid, auto-repay candidates are sorted descending (stable permutation); over whole histories the loan list changes only by a grant, a repayment or the roll-back of a loan granted at the same instant, and closed loans never change again. The float ratio of the code is modelled by the exact ratio (compared on dyadic ratios only); 'as far as funds allow' is monitored.", EX_NOTE),
  "C20": ("Theorems C20_* (coq/props/C20.v) prove, for every configuration, every non-decreasing arrival list of any length and every window, the rate bound capacity + rate*L + 1, non-negative waits, exact burst delays and refill up to capacity, over an exact-rational model of TokenBucketLimiter.consume; the model is tied to the code by running the real class on Fractions with a substituted clock and comparing every returned wait with the model evaluated by vm_compute.",
          "Closed under the global context (no axioms). Trusted: Coq kernel, the correspondence harness; production use on binary floats is compared with the exact run only up to 1e-6 (testing)."),
 }
